@@ -328,7 +328,7 @@ impl <N: NumericOps> ArraySumProdDiff<N> for Array<N> {
                 array.ndim()?.is_equal(&other.ndim()?)?;
                 array.get_shape()?.remove_at(axis).is_equal(&other.get_shape()?.remove_at(axis))?;
                 let p_partial = other
-                    .moveaxis(vec![axis.to_isize()], vec![array.ndim()?.to_isize()])
+                    .moveaxis(vec![axis.to_isize()], vec![(array.ndim()? - 1).to_isize()])
                     .ravel().split(other.get_shape()?.remove_at(axis).into_iter().product(), None)?;
                 let mut tmp_v = vec![partial, p_partial];
                 if rev { tmp_v.reverse() };
@@ -345,7 +345,7 @@ impl <N: NumericOps> ArraySumProdDiff<N> for Array<N> {
 
             let parts = self.get_shape()?.remove_at(axis).into_iter().product();
             let mut partial = self
-                .moveaxis(vec![axis.to_isize()], vec![self.ndim()?.to_isize()])?
+                .moveaxis(vec![axis.to_isize()], vec![(self.ndim()? - 1).to_isize()])?
                 .ravel().split(parts, None)?;
 
             partial = diff_extend_partial(self, partial, prepend.clone(), axis, false)?;
@@ -361,7 +361,7 @@ impl <N: NumericOps> ArraySumProdDiff<N> for Array<N> {
                 .reshape(&new_shape.swap_ext(axis, self.ndim()? - 1));
             let array =
                 if axis == 0 { array.transpose(None) }
-                else { array.moveaxis(vec![axis.to_isize()], vec![self.ndim()?.to_isize()]) };
+                else { array.moveaxis(vec![axis.to_isize()], vec![(self.ndim()? - 1).to_isize()]) };
 
             array.apply_along_axis(axis, |arr| arr.diff(n, None, None, None))
         }
